@@ -6,12 +6,12 @@ Require Import RV.Proofs.C05Gate RV.Proofs.C05Htpasswd.
 Open Scope N_scope.
 
 Theorem c05_gate_htpasswd :
-  forall py_lower py_upper basic_decode handler home_exists rights_w create_fails ext_verify
+  forall py_lower py_upper basic_decode handler home_exists home_exists_w rights_w create_fails ext_verify
          hcfg st t sz mt cfg env m bp p u,
     c_kind cfg = AOther -> h_cache hcfg = false -> flags_ok hcfg st ->
     In (EDispatch m bp p u)
        (r_effects (gate py_lower py_upper basic_decode (ht_backend ext_verify hcfg st (present t sz mt))
-                        handler home_exists rights_w create_fails cfg env)) ->
+                        handler home_exists home_exists_w rights_w create_fails cfg env)) ->
     u <> [] ->
     exists ext l pw h,
       creds basic_decode cfg env = CCreds ext l pw /\ l <> [] /\
@@ -19,7 +19,7 @@ Theorem c05_gate_htpasswd :
       first_entry (h_has_bcrypt st) (file_lines t) u = Some h /\ h <> [] /\
       verify_as ext_verify (detect (h_enc hcfg) h) h pw = VTrue.
 Proof.
-  intros py_lower py_upper basic_decode handler home_exists rights_w create_fails ext_verify
+  intros py_lower py_upper basic_decode handler home_exists home_exists_w rights_w create_fails ext_verify
          hcfg st t sz mt cfg env m bp p u Hk Hc Hf Hd Hu.
   apply c05_gate in Hd as (ext & l & pw & H1 & H2 & H3 & H4 & _); [|exact Hu].
   rewrite Hk in H3. cbn [backend_login] in H3. unfold ht_backend in H3.
